@@ -58,6 +58,7 @@ PINNED = {
     "vertex_a_hair_off_the_subpath_start": '<svg xmlns="http://www.w3.org/2000/svg" viewBox="0 0 40 40"><path d="M0,0 L10,0 L10,10 L0.0000000014,0 Z"/></svg>',
     "zero_width_gradient_stroke_on_a_filled_shape": '<svg xmlns="http://www.w3.org/2000/svg" viewBox="0 0 40 40"><defs><linearGradient id="rim"><stop offset="0" stop-color="red"/><stop offset="1" stop-color="blue"/></linearGradient></defs><rect width="20" height="20" fill="teal" stroke="url(#rim)" stroke-width="0"/><rect y="22" width="10" height="10" fill="teal" stroke="url(#rim)" stroke-width="0" transform="translate(2 2)"/></svg>',
     "foreign_attribute_declared_on_a_stop": '<svg xmlns="http://www.w3.org/2000/svg" viewBox="0 0 40 40"><defs><linearGradient id="g"><stop xmlns:k="urn:kit" k:locked="true" offset="0" stop-color="red"/><stop offset="1" stop-color="blue"/></linearGradient></defs><rect width="20" height="20" fill="url(#g)"/></svg>',
+    "use_of_a_template_inside_a_hidden_group": '<svg xmlns="http://www.w3.org/2000/svg" xmlns:xlink="http://www.w3.org/1999/xlink" viewBox="0 0 40 40"><g display="none"><rect id="tpl" width="10" height="10" fill="red"/><g id="tplg"><rect x="20" width="10" height="10" fill="blue"/></g></g><use xlink:href="#tpl" x="2" y="2"/><use xlink:href="#tplg" y="20"/><g display="none"><use xlink:href="#tpl" x="25" y="25"/></g></svg>',
     "clip_rule_on_the_clippath": '<svg xmlns="http://www.w3.org/2000/svg" viewBox="0 0 10 10"><clipPath id="c" clip-rule="evenodd"><path d="M0,0 H8 V8 H0 Z M2,2 H6 V6 H2 Z"/></clipPath><rect width="9" height="9" clip-path="url(#c)" fill="red"/></svg>',
     "use_clip_target_transform": '<svg xmlns="http://www.w3.org/2000/svg" xmlns:xlink="http://www.w3.org/1999/xlink" viewBox="0 0 30 30"><clipPath id="c"><rect width="10" height="10"/></clipPath><defs><rect id="t" width="20" height="20" transform="translate(5 0)"/></defs><use xlink:href="#t" clip-path="url(#c)"/></svg>',
     "two_nested_svgs_clip_ids": f'<svg {NS} viewBox="0 0 100 100"><svg x="0" y="0" width="40" height="40"><rect width="60" height="60" fill="red"/></svg><svg x="50" y="50" width="40" height="40"><rect width="60" height="60" fill="blue"/></svg></svg>',
